@@ -96,12 +96,15 @@ impl SocketSend for RouterSocket {
     async fn send(&mut self, mut message: ZmqMessage) -> ZmqResult<()> {
         assert!(message.len() > 1);
         let peer_id: PeerIdentity = message.pop_front().unwrap().try_into()?;
-        match self.backend.peers.get_async(&peer_id).await {
-            Some(mut peer) => {
-                peer.send_queue.send(Message::Message(message)).await?;
-                Ok(())
-            }
-            None => Err(ZmqError::Other("Destination client not found by identity")),
+        let send_result = match self.backend.peers.get_async(&peer_id).await {
+            Some(mut peer) => peer.send_queue.send(Message::Message(message)).await,
+            None => return Err(ZmqError::Other("Destination client not found by identity")),
+        };
+        if send_result.is_err() {
+            // The connection has failed: forget the peer, as the round-robin senders do.
+            self.backend.peer_disconnected(&peer_id);
         }
+        send_result?;
+        Ok(())
     }
 }
